@@ -4,7 +4,7 @@ import copy
 import numpy as np
 from hypothesis import strategies as st
 
-from .. import drive, gen, observe
+from .. import drive, gen, observe, units
 from ..runner import Outcome, Part
 
 ID = "C06"
@@ -73,6 +73,9 @@ def pin_planes(spec, c):
 def run_alone_vs_core(spec):
     o = Outcome()
     k = spec["_target"]
+    if spec.get("_merge"):
+        # runs of neighbours of one type written as ONE assignment line (they get the boundary condition of the first)
+        o.classes["merged_lines"] = min(gen.merge_assignment_lines(spec), 3)
     with drive.Case(spec) as c:
         req, bnds = pin_planes(spec, c)
         spec_core = copy.deepcopy(c.spec)
@@ -81,7 +84,17 @@ def run_alone_vs_core(spec):
         o.inconclusive = "step_too_small"
         return o
     spec_core["setup"]["axial_mesh_size"] = s
-    with drive.Case(spec_core) as c:
+    # one row per position (in position order) before runs of neighbours are optionally written as ONE assignment line
+    expanded = sorted([[r_[0], r_[1], p_, p_, copy.deepcopy(r_[4])] for r_ in spec_core["assignment"]
+                       for p_ in range(r_[2], r_[3] + 1)], key=lambda r_: (r_[1], r_[2]))
+    u = spec.get("_units")
+    o.classes["units"] = "SI" if not u else "%s/%s/%s/%s" % (u["length"], u["temperature"], u["mass"], u["time"])
+
+    def written(sp_):
+        # (both runs are written in the same unit system, so every value goes through the same conversion)
+        return units.convert(sp_, u["length"], u["temperature"], u["mass"], u["time"]) if u else sp_
+
+    with drive.Case(written(spec_core)) as c:
         r = c.setup()
         names = [a.name for a in r.assemblies]
         kk = k % len(r.assemblies)
@@ -89,9 +102,10 @@ def run_alone_vs_core(spec):
         asm = r.assemblies[kk]
         f_core = asm_fields(asm)
         P_asm = float(asm.total_power)
+        flow_core = float(asm.flow_rate)
         z_core = np.array(r.z)
         tname = asm.name
-        row = spec_core["assignment"][kk]
+        row = expanded[kk]
         n_same = sum(1 for x in names if x == tname)
     idx = 0 if row[1] == 1 else 3 * (row[1] - 1) * (row[1] - 2) + row[2]
     alone = copy.deepcopy(spec_core)
@@ -100,8 +114,14 @@ def run_alone_vs_core(spec):
     alone["power"]["files"] = [{"1": copy.deepcopy(spec_core["power"]["files"][0][str(idx + 1)])}]
     alone["power"]["total_power"] = P_asm / (spec_core["power"].get("scaling") or 1.0)
     alone["setup"]["axial_plane"] = [float(b) for b in bnds]
-    with drive.Case(alone) as c:
+    with drive.Case(written(alone)) as c:
         r1 = c.setup()
+        # its own flow rate is part of its own description: the same assignment entry must give the same flow
+        fa = float(r1.assemblies[0].flow_rate)
+        if not o.check(abs(fa - flow_core) <= 1e-12 * abs(fa), "flow_rate_differs",
+                       "assembly %d (%s): %.12g kg/s in the core of %d, %.12g kg/s alone (same assignment entry, units %s)"
+                       % (kk, tname, flow_core, len(names), fa, o.classes["units"])):
+            return o
         if not (len(r1.z) == len(z_core) and np.allclose(r1.z, z_core, rtol=0, atol=1e-12)):
             o.inconclusive = "planes_differ"
             return o
@@ -259,6 +279,10 @@ def cores(draw, q, with_target=False, with_schedule=False, gap_models=("none",))
         spec["setup"]["param_update_tol"] = gen.r6(draw(gen.logfl(1e-4, 0.1)))
     if with_target:
         spec["_target"] = draw(st.integers(0, 6))
+        spec["_merge"] = draw(st.integers(0, 2)) > 0
+        if draw(st.booleans()):
+            spec["_units"] = {"length": draw(st.sampled_from(list(units.LENGTH))), "temperature": draw(st.sampled_from(units.TEMP)),
+                              "mass": draw(st.sampled_from(list(units.MASS))), "time": draw(st.sampled_from(list(units.TIME)))}
     if with_schedule:
         spec["_schedule"] = draw(st.lists(st.integers(0, 6), min_size=1, max_size=60))
     return spec
